@@ -194,11 +194,11 @@ func carriesParams(kind int, a *auA) bool {
 
 // does the decoded init track describe parameter id p of a track of this kind?
 // second result: the init's codec is of the track's kind at all
-func initCarries(kind int, c fmp4.Codec, p int64) (bool, bool) {
+func initCarries(h *history, kind int, c fmp4.Codec, p int64) (bool, bool) {
 	switch kind {
 	case kH264:
 		c, ok := c.(*fmp4.CodecH264)
-		return ok && bytes.Equal(c.SPS, spsOf(p)) && bytes.Equal(c.PPS, ppsOf(p)), ok
+		return ok && bytes.Equal(c.SPS, spsOf(h, p)) && bytes.Equal(c.PPS, ppsOf(p)), ok
 	case kH265:
 		c, ok := c.(*fmp4.CodecH265)
 		return ok && bytes.Equal(c.VPS, h265VPSOf(p)) && bytes.Equal(c.SPS, h265SPSOf(p)) && bytes.Equal(c.PPS, h265PPSOf(p)), ok
@@ -552,7 +552,7 @@ func (o *oracleCtx) c02() {
 					o.fail("C02", vn+":init-tracks", "stream %d: init declares %d tracks (id/timescale mismatch, want id 1 timescale %d)", si, len(init.Tracks), wantTS)
 					continue
 				}
-				carries, sameKind := initCarries(t.Kind, init.Tracks[0].Codec, cur[si])
+				carries, sameKind := initCarries(h, t.Kind, init.Tracks[0].Codec, cur[si])
 				if !sameKind {
 					o.fail("C02", vn+":init-codec", "stream %d: the init segment declares a %T for a track of kind %d", si, init.Tracks[0].Codec, t.Kind)
 					continue
@@ -939,7 +939,7 @@ func expectedCodec(h *history, t int, params int64) string {
 	switch h.Tracks[t].Kind {
 	case kH264, kH265, kVP9, kAV1:
 		// recomputed from the bytes of the parameter sets / headers in force (codecstr.go)
-		return codecFromParamBytes(h.Tracks[t].Kind, params)
+		return codecFromParamBytes(h, h.Tracks[t].Kind, params)
 	case kAAC:
 		return "mp4a.40.2"
 	case kOpus:
@@ -949,11 +949,11 @@ func expectedCodec(h *history, t int, params int64) string {
 }
 
 // RESOLUTION and frames per second (0 = the parameter sets carry no timing) of a video track's parameters
-func expectedVideoInfo(kind int, params int64) (string, float64) {
+func expectedVideoInfo(h *history, kind int, params int64) (string, float64) {
 	switch kind {
 	case kH264:
 		var sps h264.SPS
-		if err := sps.Unmarshal(spsOf(params)); err != nil {
+		if err := sps.Unmarshal(spsOf(h, params)); err != nil {
 			return "", 0
 		}
 		return strconv.Itoa(sps.Width()) + "x" + strconv.Itoa(sps.Height()), sps.FPS()
@@ -1034,7 +1034,7 @@ func (o *oracleCtx) c16() {
 			o.fail("C16", vn+":codecs", "CODECS %q, the tracks' current parameters give %q", strings.Join(p.codecs, ","), strings.Join(wantCodecs, ","))
 		}
 		if hasVideo {
-			wantRes, wantFPS := expectedVideoInfo(h.Tracks[lead].Kind, cur[lead])
+			wantRes, wantFPS := expectedVideoInfo(h, h.Tracks[lead].Kind, cur[lead])
 			if wantRes != "" && p.resolution != wantRes {
 				o.fail("C16", vn+":resolution", "RESOLUTION %q, the current parameters (kind %d, id %d) say %q", p.resolution, h.Tracks[lead].Kind, cur[lead], wantRes)
 			}
